@@ -13,7 +13,7 @@ res = {}
 for log in sorted(glob.glob("/tmp/seed/eval*.log")):
     cur = None
     for ln in open(log):
-        m = re.match(r"=== (C\d+)-([AB])", ln)
+        m = re.match(r"=== (C\d+)-([A-D])", ln)
         if m:
             cur = f"{m.group(1)}-{m.group(2)}"
             res.setdefault(cur, {"confirm": "?", "runs": []})
